@@ -31,6 +31,10 @@ pub enum Prefix {
     /// sends a message nobody will read (0) or leaves (1) - and the application never looks
     /// again before it closes / drops the socket. The idle peers are the observers.
     LateActivity(u8),
+    /// the socket's `connect()` towards a raw listener that accepts and then stays silent is
+    /// abandoned by the caller after 50 ms (a timeout); the half-made connection is the
+    /// observer: it must be closed by close / drop like any pending handshake
+    AbandonedConnect,
 }
 
 #[derive(Debug, Clone, Serialize, Deserialize, PartialEq, Eq, Hash)]
@@ -215,7 +219,7 @@ pub fn close_outcome(c: &CloseCase) -> Outcome {
                         }
                     }
                 }
-                Prefix::ConnectedOut => {
+                Prefix::ConnectedOut | Prefix::AbandonedConnect => {
                     // the socket connects out to a raw listener which performs the handshake
                     let target = match c.transport {
                         Transport::Ipc => {
@@ -236,6 +240,22 @@ pub fn close_outcome(c: &CloseCase) -> Outcome {
                             format!("tcp://127.0.0.1:{}", port)
                         }
                     };
+                    if c.prefix == Prefix::AbandonedConnect {
+                        let accept_silent = async {
+                            let stream = if let Some(l) = &out_listener {
+                                realnet::RawStream::Tcp(l.accept().await.expect("accept").0)
+                            } else {
+                                realnet::RawStream::Unix(out_unix.as_ref().unwrap().accept().await.expect("accept").0)
+                            };
+                            RawConn { stream, inbuf: vec![], traffic_from: None }
+                        };
+                        let abandoned = async {
+                            // the caller gives up on connect() after 50 ms
+                            let _ = tokio::time::timeout(Duration::from_millis(50), realnet::sock_connect(&mut s, &target)).await;
+                        };
+                        let (_, rc) = tokio::join!(abandoned, accept_silent);
+                        stalled.push(rc);
+                    } else {
                     let accept = async {
                         let stream = if let Some(l) = &out_listener {
                             realnet::RawStream::Tcp(l.accept().await.expect("accept").0)
@@ -252,6 +272,7 @@ pub fn close_outcome(c: &CloseCase) -> Outcome {
                             fail!(f, format!("C17/{}/setup-connect-out", who), "{:?} / {:?}", a.err().map(|e| format!("{:?}", e)), b.err());
                             return f;
                         }
+                    }
                     }
                 }
             }
@@ -373,7 +394,7 @@ pub fn grid() -> Vec<CloseCase> {
     let mut v = vec![];
     for kind in ALL_KINDS {
         for transport in [Transport::TcpV4, Transport::TcpV6, Transport::Ipc] {
-            for prefix in [Prefix::BoundOnly, Prefix::Accepted(2), Prefix::ConnectedOut, Prefix::MidTraffic, Prefix::PendingHandshake(10), Prefix::Backlogged, Prefix::LateActivity(0), Prefix::LateActivity(1)] {
+            for prefix in [Prefix::BoundOnly, Prefix::Accepted(2), Prefix::ConnectedOut, Prefix::MidTraffic, Prefix::PendingHandshake(10), Prefix::Backlogged, Prefix::LateActivity(0), Prefix::LateActivity(1), Prefix::AbandonedConnect] {
                 if matches!(prefix, Prefix::LateActivity(_)) && !kind.fair_queue_recv() {
                     continue;
                 }
@@ -426,7 +447,8 @@ pub fn run(ctx: &Ctx) -> (Report, PropertyMeta) {
         |s| CloseCase {
             kind: s.pick(&ALL_KINDS),
             transport: s.pick(&[Transport::TcpV4, Transport::TcpV6, Transport::TcpLocalhost, Transport::Ipc]),
-            prefix: match s.below(7) {
+            prefix: match s.below(8) {
+                7 => Prefix::AbandonedConnect,
                 6 => Prefix::LateActivity(s.below(2) as u8),
                 0 => Prefix::BoundOnly,
                 1 => Prefix::Accepted(s.range(1, 3) as u8),
